@@ -615,6 +615,13 @@ func (es *SearchEngineState) RETURN() {
 
 func (es *SearchEngineState) CHECKPOINT() {
 	checkpoint := es.Copy()
+	// the checkpoint must keep the bindings as they are now: the maps are
+	// mutated in place by the path that continues from here
+	checkpoint.environment = es.environment.Copy().Hashmap()
+	for i := 0; i < int(checkpoint.loopStack.Size()); i++ {
+		loopState := checkpoint.loopStack.Index(i)
+		loopState.variables = loopState.variables.Copy().Hashmap()
+	}
 	es.backtrack.Push(*checkpoint)
 }
 
